@@ -189,6 +189,11 @@ def check_prims(ctx, rep):
             cmp("str.lstrip", (s, p), "".join(chr(c) for c in g), s.lstrip(p) if p else s)   # lstrip('') strips nothing
             import posixpath
             cmp("os.path.isabs", s, model.call("prim_str", [4, cs, []]), 1 if posixpath.isabs(s) else 0)
+            if model.call("prim_str", [9, [47], []]) == [47]:      # stage 8b entries present
+                import os
+                g = model.call("prim_str", [8, cs, cp])
+                cmp("str.rstrip", (s, p), "".join(chr(c) for c in g), s.rstrip(p) if p else s)   # rstrip('') strips nothing
+                cmp("os.path.normcase", s, "".join(chr(c) for c in model.call("prim_str", [9, cs, []])), os.path.normcase(s))
     # ---------------- pathlib bindings used by generated code
     import pathlib
     segs = ["", ".", "..", "a", "a/b", "a/", "/", "//", "///", "/a", "//a", "/a/..", "../a", "b/./c", "..//..", "c:", "/a//b/"]
